@@ -4,6 +4,7 @@
 # The agent gets nothing from /verif: the prompt is self-contained.
 import json,sys,glob,os
 suf=sys.argv[1]
+HUNT='' if suf < 'd' else 'BEFORE the task below, spend about a third of your effort on the CLEAN worktree: look for concrete inputs (documents, patches, option settings, call sequences) for which the unmodified library already violates the property as stated, inside the stated domain. Write small probe tests; where it helps, write your own tiny reference implementation of the RFC semantics and compare the library against it on systematically enumerated or random small inputs (multi-operation patches, nulls, empty names, escapes, nested containers, option combinations, boundary indices). Report every violation you can reproduce at the end of your answer with the exact input, what the library returns and what the property requires; say explicitly if you found none. These reports are as valuable as the changes.\n\n'
 LEGACY='''NOTE on the legacy root package: the files patch.go/merge.go/errors.go at the root of the worktree form the package github.com/evanphx/json-patch (v4 API). It has NO go.mod, so the existing suite never compiles it. To compile/run a demonstration against it, temporarily create {wt}/go.mod containing:
   module github.com/evanphx/json-patch
   go 1.18
@@ -29,7 +30,7 @@ QUANTIFIER: {p['quantifier']['text']}
 WHY TESTS CANNOT SETTLE IT: {p['why_tests_cant']}
 ANCHORS (where the mechanisms live; line numbers may have drifted): {json.dumps(p['anchors'])}
 
-YOUR TASK: produce 3 DIFFERENT, realistic source changes to the library (each one independent, each a separate small diff against the clean worktree) that BREAK this property while (a) the code still compiles and (b) the EXISTING test suite still passes completely. The existing suite is run with:
+{HUNT}YOUR TASK: produce 3 DIFFERENT, realistic source changes to the library (each one independent, each a separate small diff against the clean worktree) that BREAK this property while (a) the code still compiles and (b) the EXISTING test suite still passes completely. The existing suite is run with:
   cd {wt}/v5 && GOFLAGS=-mod=mod GOPROXY=off GOSUMDB=off go test -vet=off -count=1 ./...
 (There is no network; never try to download anything. Always export GOFLAGS=-mod=mod GOPROXY=off GOSUMDB=off GOTOOLCHAIN=local in every shell call.)
 {LEGACY.format(wt=wt) if legacy else ""}
